@@ -93,6 +93,23 @@ class BitEval:
             return out
         if isinstance(e0, tuple) and e0[0] == 'repeat':
             return None
+        if isinstance(e0, tuple) and e0[0] == 'call' and re.search(r'Index<I>>::index$|Index::index$', e0[1]) and len(e0[2]) == 2:
+            base = self.bytes_of(e0[2][0])
+            rg = peel(e0[2][1], unwraps=False)
+            if base is not None and isinstance(rg, tuple) and rg[0] == 'agg':
+                nm = str(rg[1])
+                cs = [const_val(x) for x in rg[2]]
+                if 'RangeFull' in nm:
+                    return base
+                if nm.endswith('ops::Range::Range') and len(cs) == 2 and None not in cs and 0 <= cs[0] <= cs[1] <= len(base):
+                    return base[cs[0]:cs[1]]
+                if 'RangeFrom' in nm and len(cs) == 1 and cs[0] is not None and cs[0] <= len(base):
+                    return base[cs[0]:]
+                if 'RangeTo' in nm and 'Inclusive' not in nm and len(cs) == 1 and cs[0] is not None and cs[0] <= len(base):
+                    return base[:cs[0]]
+            return None
+        if isinstance(e0, tuple) and e0[0] == 'call' and re.search(r'to_vec$|as_slice$|Deref::deref$|as_ref$', e0[1]) and e0[2]:
+            return self.bytes_of(e0[2][0])
         if isinstance(e0, tuple) and e0[0] == 'call':
             name = e0[1]
             m = re.search(r'core::num::<impl (u8|u16|u32|u64|u128|usize)>::to_(be|le|ne)_bytes$', name)
